@@ -118,7 +118,7 @@ Section Acct.
     - (* OAskTimeout *)
       destruct accepted; [apply bal_to_dl; reflexivity|].
       destruct (e_dl e); [|apply bal_refl].
-      cn. destruct (K_dec (pr (mid, sender_of snd, to)) x); lia.
+      cn.
     - (* ORemote *)
       unfold delivered. simpl in Ho.
       destruct (w_payload w) eqn:Pl; simpl.
@@ -161,12 +161,14 @@ Section Acct.
       apply bal_drain_msg.
       + unfold st_wf in Hs. rewrite C in Hs. inversion Hs; assumption.
       + intros x. unfold lhs. simpl. rewrite C. simpl.
-        repeat rewrite ?count_occ_app. simpl. destruct (K_dec (pr (intended w)) x); lia.
+        repeat rewrite ?count_occ_app. simpl.
+        destruct (K_dec (pr (intended w)) x); repeat rewrite ?count_occ_app; lia.
       + reflexivity.
     - (* ODLStep *)
       destruct (mbox s) eqn:M; [apply bal_refl|].
       unfold bal, lhs, rhs. intros x. simpl. rewrite M. simpl.
-      repeat rewrite ?map_app, ?count_occ_app. simpl. destruct (K_dec (pr l) x); lia.
+      repeat rewrite ?map_app, ?count_occ_app. simpl.
+      destruct (K_dec (pr l) x); repeat rewrite ?map_app, ?count_occ_app; simpl; lia.
     - (* OPublishAll *)
       cn.
   Qed.
@@ -245,7 +247,8 @@ Section Acct.
   Proof.
     intros cap ops Ho s. destruct (run_bal cap ops init init_wf Ho) as [B _].
     apply (Permutation_count_occ K_dec). intros x. specialize (B x). fold s in B.
-    rewrite count_occ_app. unfold lhs, rhs in B at 2 3. simpl in B. lia.
+    rewrite count_occ_app. change (lhs init) with (@nil K) in B. change (rhs init) with (@nil K) in B.
+    simpl in B. lia.
   Qed.
 End Acct.
 
@@ -279,24 +282,67 @@ Qed.
 
 (* ------------------------------------------------------------------ counter = number published *)
 
+(** the fields only the dead-letter actor's handlers write *)
+Definition core (s : st) := (counter s, published s, replays s, percount s).
+
+Lemma core_send : forall l s, core (send_dl l s) = core s. Proof. reflexivity. Qed.
+Lemma core_lose : forall c l s, core (lose c l s) = core s. Proof. reflexivity. Qed.
+Lemma core_to_dl : forall e l w s, core (to_dl e l w s) = core s.
+Proof. intros. unfold to_dl. destruct (e_dl e); reflexivity. Qed.
+Lemma core_remote_dl : forall e l w s, core (remote_dl e l w s) = core s.
+Proof. intros. unfold remote_dl. destruct (e_dl e && e_guard e); reflexivity. Qed.
+Lemma core_drain_msg : forall e w s, core (drain_msg e w s) = core s.
+Proof.
+  intros. unfold drain_msg. destruct (parse (w_to w)); [|reflexivity].
+  destruct (negb (w_payload w)); [reflexivity | apply core_remote_dl].
+Qed.
+Lemma core_fold_lose : forall c b s, core (fold_left (fun s' w => lose c (intended w) s') b s) = core s.
+Proof.
+  intros. pose proof (fold_lose_fields c b s) as F. simpl in F.
+  destruct F as (_ & _ & _ & H4 & H5 & H6 & _ & H8 & _). unfold core. rewrite H4, H5, H6, H8. reflexivity.
+Qed.
+
+Lemma core_eq : forall a b, core a = core b ->
+  counter a = counter b /\ published a = published b /\ replays a = replays b /\ percount a = percount b.
+Proof. unfold core. intros a b H. inversion H. auto. Qed.
+
+(** only the handler that publishes changes the counter: every other op leaves all four fields alone *)
+Lemma step_core : forall cap s o,
+  match o with ODLStep | OPublishAll => True | _ => core (step cap s o) = core s end.
+Proof.
+  intros cap s o. destruct o; simpl; auto.
+  - destruct k; auto. destruct (negb stream); [reflexivity|]. destruct rcv; [apply core_to_dl | reflexivity].
+  - apply core_to_dl.
+  - destruct accepted; [reflexivity | apply core_to_dl].
+  - destruct accepted; [apply core_to_dl|]. destruct (e_dl e); reflexivity.
+  - destruct (negb (w_payload w)); [reflexivity|].
+    destruct (negb (w_meta w) || negb (is_ok_tree t)).
+    + destruct (parse (w_to w)); [apply core_remote_dl | reflexivity].
+    + destruct t; auto. destruct accepted; [reflexivity | apply core_to_dl].
+  - destruct (e_shut e || negb (e_qon e)); [apply core_fold_lose|].
+    destruct (cap <=? length (fq s)); [apply core_fold_lose | reflexivity].
+  - destruct (cur s); [|reflexivity]. destruct (fq s); reflexivity.
+  - destruct (cur s); [reflexivity|]. rewrite core_drain_msg. reflexivity.
+Qed.
+
 Definition counter_inv (s : st) : Prop := counter s + length (replays s) = length (published s).
 
-Lemma fold_lose_counter_inv : forall c b s, counter_inv s -> counter_inv (fold_left (fun s' w => lose c (intended w) s') b s).
+Lemma core_inv : forall (P : nat * list letter * list letter * list (addr * nat) -> Prop) cap s o,
+  (forall s, P (core s) -> P (core (step cap s ODLStep))) ->
+  (forall s, P (core s) -> P (core (step cap s OPublishAll))) ->
+  P (core s) -> P (core (step cap s o)).
 Proof.
-  intros c b s H. pose proof (fold_lose_fields c b s) as F. simpl in F.
-  destruct F as (_ & _ & _ & H4 & H5 & _ & _ & H8 & _). unfold counter_inv in *. rewrite H4, H5, H8. exact H.
+  intros P cap s o H1 H2 H. pose proof (step_core cap s o) as C.
+  destruct o; try (rewrite C; exact H); [apply H1 | apply H2]; exact H.
 Qed.
 
 Lemma step_counter_inv : forall cap s o, counter_inv s -> counter_inv (step cap s o).
 Proof.
-  intros cap s o H. unfold counter_inv in *.
-  destruct o; simpl;
-    unfold to_dl, remote_dl, drain_msg, lose, send_dl, set_dups, set_fq, set_cur, set_lost, set_mbox;
-    repeat match goal with
-           | |- context [match ?x with _ => _ end] => destruct x eqn:?; simpl
-           | |- context [if ?x then _ else _] => destruct x eqn:?; simpl
-           end; try assumption; try (apply fold_lose_counter_inv; exact H);
-    try (rewrite ?app_length, ?map_length; simpl; lia).
+  intros cap s o H.
+  apply (core_inv (fun c => match c with (n, p, r, _) => n + length r = length p end) cap s o); [| |exact H];
+    clear; intros s H; simpl in *.
+  - destruct (mbox s); simpl; [exact H|]. rewrite app_length. simpl. lia.
+  - rewrite !app_length. lia.
 Qed.
 
 Lemma run_counter_inv : forall cap ops s, counter_inv s -> counter_inv (run cap ops s).
@@ -309,19 +355,24 @@ Theorem counter_matches_published : forall cap ops,
   let s := run cap ops init in counter s + length (replays s) = length (published s).
 Proof. intros. apply run_counter_inv. reflexivity. Qed.
 
-Definition is_publish_all (o : op) : bool := match o with OPublishAll => true | _ => false end.
+(** the counter moves only in the step that publishes, and by exactly the number of fresh events *)
+Theorem counter_changes_only_when_publishing : forall cap s o,
+  counter (step cap s o) = counter s + (length (published (step cap s o)) - length (published s))
+                           - (length (replays (step cap s o)) - length (replays s)).
+Proof.
+  intros cap s o. pose proof (step_core cap s o) as C.
+  destruct o; try (apply core_eq in C; destruct C as (C1 & C2 & C3 & C4); rewrite C1, C2, C3; lia).
+  - simpl. destruct (mbox s); simpl; [lia|]. rewrite app_length. simpl. lia.
+  - simpl. rewrite !app_length. lia.
+Qed.
 
-Lemma fold_lose_replays : forall c b s, replays (fold_left (fun s' w => lose c (intended w) s') b s) = replays s.
-Proof. intros. pose proof (fold_lose_fields c b s) as F. simpl in F. tauto. Qed.
+Definition is_publish_all (o : op) : bool := match o with OPublishAll => true | _ => false end.
 
 Lemma step_replays : forall cap s o, is_publish_all o = false -> replays (step cap s o) = replays s.
 Proof.
-  intros cap s o H. destruct o; simpl in *; try discriminate;
-    unfold to_dl, remote_dl, drain_msg, lose, send_dl, set_dups, set_fq, set_cur, set_lost, set_mbox;
-    repeat match goal with
-           | |- context [match ?x with _ => _ end] => destruct x eqn:?; simpl
-           | |- context [if ?x then _ else _] => destruct x eqn:?; simpl
-           end; try reflexivity; apply fold_lose_replays.
+  intros cap s o H. pose proof (step_core cap s o) as C.
+  destruct o; try discriminate; try (apply core_eq in C; destruct C as (C1 & C2 & C3 & C4); exact C3).
+  simpl. destruct (mbox s); reflexivity.
 Qed.
 
 Lemma run_replays : forall cap ops s, existsb is_publish_all ops = false -> replays (run cap ops s) = replays s.
@@ -363,24 +414,13 @@ Qed.
 Definition percount_inv (s : st) : Prop :=
   forall a, getc a (percount s) + count_to a (replays s) = count_to a (published s).
 
-Lemma fold_lose_percount_inv : forall c b s, percount_inv s -> percount_inv (fold_left (fun s' w => lose c (intended w) s') b s).
-Proof.
-  intros c b s H. pose proof (fold_lose_fields c b s) as F. simpl in F.
-  destruct F as (_ & _ & _ & _ & H5 & H6 & _ & H8 & _). unfold percount_inv in *. rewrite H5, H6, H8. exact H.
-Qed.
-
 Lemma step_percount_inv : forall cap s o, percount_inv s -> percount_inv (step cap s o).
 Proof.
   intros cap s o H.
-  destruct o; simpl;
-    unfold to_dl, remote_dl, drain_msg, lose, send_dl, set_dups, set_fq, set_cur, set_lost, set_mbox;
-    repeat match goal with
-           | |- context [match ?x with _ => _ end] => destruct x eqn:?; simpl
-           | |- context [if ?x then _ else _] => destruct x eqn:?; simpl
-           end; try assumption; try (apply fold_lose_percount_inv; exact H).
-  - (* ODLStep *) unfold percount_inv in *. simpl. intros a. rewrite getc_bump, count_to_app. simpl.
-    specialize (H a). lia.
-  - (* OPublishAll *) unfold percount_inv in *. simpl. intros a. rewrite !count_to_app. specialize (H a). lia.
+  apply (core_inv (fun c => match c with (_, p, r, pc) => forall a, getc a pc + count_to a r = count_to a p end) cap s o);
+    [| |exact H]; clear; intros s H; simpl in *.
+  - destruct (mbox s); simpl; [exact H|]. intros a. rewrite getc_bump, count_to_app. simpl. specialize (H a). lia.
+  - intros a. rewrite !count_to_app. specialize (H a). lia.
 Qed.
 
 Theorem per_receiver_counter : forall cap ops a,
@@ -474,9 +514,10 @@ Proof.
     auto.
   - destruct (cur s); auto. destruct (fq s); auto.
   - destruct (cur s) as [|w r]; auto.
-    repeat (apply andb_true_iff in H; destruct H as [H ?]).
+    apply andb_true_iff in H. destruct H as [H H4]. apply andb_true_iff in H. destruct H as [H H3].
+    apply andb_true_iff in H. destruct H as [H1 H2].
     destruct (parse (w_to w)); simpl in *; try discriminate.
-    repeat match goal with E : _ = true |- _ => rewrite E end; simpl; auto.
+    unfold remote_dl, send_dl, lose, set_mbox, set_lost. rewrite H2, H3, H4. simpl. auto.
   - destruct (mbox s); auto.
   - auto.
 Qed.
@@ -516,9 +557,11 @@ Proof.
   intros cap ops H NP s (Q1 & Q2 & Q3).
   destruct (guarded_accounting cap ops H) as (_ & _ & P). fold s in P.
   unfold pending in P. rewrite Q1, Q2, Q3 in P. simpl in P.
-  unfold s in P at 3. rewrite run_replays in P by exact NP. simpl in P. rewrite !app_nil_r in P.
+  assert (R : replays s = []) by (unfold s; rewrite run_replays by exact NP; reflexivity).
+  rewrite R in P. rewrite !app_nil_r in P.
   split; [exact P|]. split.
-  - rewrite (counter_is_number_published cap ops NP). apply Permutation_length, P.
+  - pose proof (counter_is_number_published cap ops NP) as CN. simpl in CN. fold s in CN.
+    rewrite CN. apply Permutation_length, P.
   - intros ND l Hin. rewrite (proj1 (Permutation_count_occ letter_eq_dec _ _) P l).
     apply (proj1 (NoDup_count_occ' letter_eq_dec _) ND l Hin).
 Qed.
@@ -532,7 +575,7 @@ Proof.
   intros cap n. induction n as [|n IH]; intros s H; simpl.
   - destruct (mbox s); [auto|discriminate].
   - destruct (mbox s) as [|l r] eqn:M; [discriminate|].
-    unfold run in *. simpl. rewrite M.
+    unfold run in *. simpl. rewrite ?M.
     match goal with |- context [fold_left _ _ ?s1] => specialize (IH s1) end.
     simpl in IH. apply IH. simpl in H. lia.
 Qed.
@@ -543,7 +586,7 @@ Proof.
   intros cap e n. induction n as [|n IH]; intros s H; simpl.
   - destruct (cur s); [auto|discriminate].
   - destruct (cur s) as [|w r] eqn:C; [discriminate|].
-    unfold run in *. simpl. rewrite C.
+    unfold run in *. simpl. rewrite ?C.
     destruct (drain_msg_cur_fq e w (set_cur s r)) as [H1 H2].
     match goal with |- context [fold_left _ _ ?s1] => specialize (IH s1) end.
     rewrite H1, H2 in IH. simpl in IH. apply IH. simpl in H. lia.
@@ -553,13 +596,15 @@ Lemma run_app : forall cap a b s, run cap (a ++ b) s = run cap b (run cap a s).
 Proof. intros. unfold run. apply fold_left_app. Qed.
 
 Lemma drain_fq : forall cap e q s, cur s = [] -> fq s = q ->
-  let ops := flat_map (fun b => ODrainTake :: repeat (ODrainMsg e) (length b)) q in
-  cur (run cap ops s) = [] /\ fq (run cap ops s) = [].
+  cur (run cap (flat_map (fun b => ODrainTake :: repeat (ODrainMsg e) (length b)) q) s) = [] /\
+  fq (run cap (flat_map (fun b => ODrainTake :: repeat (ODrainMsg e) (length b)) q) s) = [].
 Proof.
-  intros cap e q. induction q as [|b q IH]; intros s C F; simpl.
-  - auto.
-  - change (ODrainTake :: repeat (ODrainMsg e) (length b) ++ flat_map (fun b0 => ODrainTake :: repeat (ODrainMsg e) (length b0)) q)
-      with ([ODrainTake] ++ (repeat (ODrainMsg e) (length b) ++ flat_map (fun b0 => ODrainTake :: repeat (ODrainMsg e) (length b0)) q)).
+  intros cap e q. induction q as [|b q IH]; intros s C F.
+  - simpl. unfold run. simpl. auto.
+  - cbn [flat_map].
+    set (rest := flat_map (fun b0 => ODrainTake :: repeat (ODrainMsg e) (length b0)) q) in *.
+    replace ((ODrainTake :: repeat (ODrainMsg e) (length b)) ++ rest)
+      with ([ODrainTake] ++ (repeat (ODrainMsg e) (length b) ++ rest)) by reflexivity.
     rewrite run_app, run_app.
     assert (S1 : cur (run cap [ODrainTake] s) = b /\ fq (run cap [ODrainTake] s) = q).
     { unfold run. simpl. rewrite C, F. simpl. auto. }
@@ -568,7 +613,7 @@ Proof.
     apply IH; [exact C2 | rewrite F2; exact F1].
 Qed.
 
-Theorem quiescence_reachable : forall cap e s,
+Theorem quiescence_reachable : forall cap (e : env) s,
   exists ops', Forall (fun o => match o with ODrainTake | ODrainMsg _ | ODLStep => True | _ => False end) ops'
                /\ quiescent (run cap ops' s).
 Proof.
@@ -607,15 +652,27 @@ Definition flush_ops (cap : nat) (ops : list op) : list op :=
   let s1 := run cap (drain_all_ops eup s) s in
   ops ++ drain_all_ops eup s ++ dl_all_ops s1.
 
-Definition in_published (cap : nat) (ops : list op) (l : letter) : bool :=
-  existsb (fun x => if letter_eq_dec x l then true else false) (published (run cap ops init)).
+Definition letter_eqb (a b : letter) : bool := if letter_eq_dec a b then true else false.
+Definition inb (l : letter) (ls : list letter) : bool := existsb (letter_eqb l) ls.
+Definition quiescentb (s : st) : bool :=
+  match mbox s, cur s, fq s with [], [], [] => true | _, _, _ => false end.
+Lemma quiescentb_ok : forall s, quiescentb s = true -> quiescent s.
+Proof. unfold quiescentb, quiescent. intros s. destruct (mbox s), (cur s), (fq s); intros; try discriminate; auto. Qed.
+Lemma inb_ok : forall l ls, inb l ls = true -> In l ls.
+Proof.
+  unfold inb. intros l ls H. apply existsb_exists in H. destruct H as (x & Hin & E).
+  unfold letter_eqb in E. destruct (letter_eq_dec l x); [subst; exact Hin | discriminate].
+Qed.
+
+Definition queue_full_check (cap : nat) : bool * bool * bool * nat * nat * list (lclass * letter) :=
+  let ops := flush_ops cap (wit_queue cap) in
+  let s := run cap ops init in
+  (quiescentb s, inb (S cap, 5, 9) (spec_drops ops), inb (S cap, 5, 9) (published s),
+   length (published s), length (spec_drops ops), lost s).
 
 Lemma refuted_queue_full_256 :
-  let ops := flush_ops 256 (wit_queue 256) in
-  In (257, 5, 9) (spec_drops ops) /\ in_published 256 ops (257, 5, 9) = false
-  /\ length (published (run 256 ops init)) = 256 /\ length (spec_drops ops) = 257
-  /\ lost (run 256 ops init) = [(CQueueFull, (257, 5, 9))].
-Proof. vm_compute. repeat split; try reflexivity. do 256 right. left. reflexivity. Qed.
+  queue_full_check 256 = (true, true, false, 256, 257, [(CQueueFull, (257, 5, 9))]).
+Proof. vm_compute. reflexivity. Qed.
 
 (** (2) a receiver whose canonical string address.Parse rejects (raw IPv6 host): no dead letter *)
 Definition wit_v6_receiver : list op :=
